@@ -129,19 +129,6 @@ theorem mem_hpush_iff (a : Arr) (e x : Entry) : x ∈ (hpush a e).toList ↔ x =
 
 /-! ## ScheduleJob -/
 
-def SchedArgs.illegal (a : SchedArgs) : Prop :=
-  a.hasDetail = false ∨ a.hasKey = false ∨ a.name = "" ∨ a.trig = none
-
-instance (a : SchedArgs) : Decidable a.illegal := by unfold SchedArgs.illegal; infer_instance
-
-/-- the non-suspended trigger answers with its own error -/
-def SchedArgs.trigFails (a : SchedArgs) (now : Int) : Prop :=
-  a.suspended = false ∧ ∃ t, a.trig = some t ∧ (t.fire now).1 = none
-
-/-- the entry `ScheduleJob` builds when the trigger answered `p` -/
-def SchedArgs.entry (a : SchedArgs) (p : Int) : Entry :=
-  { group := a.group, name := a.name, prio := p, suspended := a.suspended, replace := a.replace, tag := a.tag }
-
 theorem schedule_illegal (s : SState) (now : Int) (a : SchedArgs) (h : a.illegal) :
     schedule s now a = (s, some .illegalArgument, []) := by
   unfold schedule
@@ -322,9 +309,6 @@ theorem pause_suspended (s : SState) (g n : String) (e : Entry) (hq : qget s.q g
   rw [hq]
   simp [hs]
 
-/-- the entry `PauseJob` puts back -/
-def pausedOf (e : Entry) : Entry := { e with prio := maxInt64, suspended := true }
-
 theorem pause_active (s : SState) (g n : String) (e : Entry) (h : Inv s.q)
     (hq : qget s.q g n = .ok e) (hs : e.suspended = false) :
     ∃ q1, qremove s.q g n = .ok (q1, e) ∧ s.q.toList.Perm (e :: q1.toList) ∧ Inv q1 ∧
@@ -372,9 +356,6 @@ theorem resume_trigger_error (s : SState) (now : Int) (g n : String) (e : Entry)
   rw [hq]
   simp only [hs, Bool.not_true, Bool.false_eq_true, if_false]
   simp only [hf]
-
-/-- the entry `ResumeJob` puts back -/
-def resumedOf (e : Entry) (p : Int) : Entry := { e with prio := p, suspended := false }
 
 theorem resume_ok (s : SState) (now : Int) (g n : String) (e : Entry) (p : Int) (h : Inv s.q)
     (hq : qget s.q g n = .ok e) (hs : e.suspended = true)
@@ -563,9 +544,6 @@ theorem mem_erase_iff_of_inv {a : Arr} (h : Inv a) (old x : Entry) :
     x ∈ a.toList.erase old ↔ x ∈ a.toList ∧ x ≠ old := by
   rw [(nodup_of_inv h).mem_erase_iff]
   exact ⟨fun ⟨h1, h2⟩ => ⟨h2, h1⟩, fun ⟨h1, h2⟩ => ⟨h2, h1⟩⟩
-
-/-- tags identify entries -/
-def TagsDistinct (q : Arr) : Prop := ∀ x ∈ q.toList, ∀ y ∈ q.toList, x.tag = y.tag → x = y
 
 /-- state invariant of every reachable state (under `FreshTags`) -/
 structure WF (s : SState) : Prop where
@@ -1353,8 +1331,6 @@ theorem kind_active {thr : Int} {s s' : SState} {ev : Ev} {o : Obs} (hwf : WF s)
 
 /-! ## a tag that is not in the registry stays out, and silent -/
 
-def AbsentTag (t : Nat) (s : SState) : Prop := ∀ e ∈ s.q.toList, e.tag ≠ t
-
 theorem quiet_noConsume {t : Nat} {o : Obs} (h : o.quiet t) : o.noConsume t := by
   refine ⟨h.1, ?_⟩
   intro pos d hd
@@ -1648,5 +1624,398 @@ theorem own_trigger_aux (thr : Int) (evs : List Ev) :
       · rw [hd]
         refine AllPairs.cons ⟨by rw [hpos]; exact hk2, pv, ?_⟩ hm3
         exact getElem?_append_of_some _ _ _ _ (getElem?_append_of_some _ _ _ _ hk3)
+
+/-! ## no drift -/
+
+theorem dispTime_of_disp_none {o : Obs} (t : Nat) (h : ∀ pos, o.disp? pos = none) : o.dispTime? t = none := by
+  unfold Obs.dispTime?; rw [h 0]
+
+theorem drift_step {thr : Int} {s s' : SState} {now : Int} {o : Obs} (hwf : WF s)
+    (hk : Kind thr s (.step now) s' o) (x : Entry) (hx : x ∈ s.q.toList) (hxs : x.suspended = false)
+    (I : Int) (htr : s.trig x.tag = .simple I)
+    (hno : ∀ out e, o.out = some out → out.popped = some e → e.tag = x.tag → out.cls ≠ some .outdated) :
+    (o.dispTime? x.tag = none ∧ (∀ c ∈ o.calls, c.tag ≠ x.tag) ∧ x ∈ s'.q.toList ∧
+      s'.trig x.tag = .simple I) ∨
+    (o.dispTime? x.tag = some x.prio ∧ o.calls = [⟨x.tag, x.prio, some (x.prio + I)⟩] ∧
+      ({ x with prio := x.prio + I } : Entry) ∈ s'.q.toList ∧ s'.trig x.tag = .simple I) := by
+  cases hk with
+  | idle _ _ _ hmem hinv htrs hcalls hdisp hpop =>
+    left
+    refine ⟨dispTime_of_disp_none _ hdisp, (by rw [hcalls]; exact fun c hc => by cases hc),
+      (hmem x).mpr hx, ?_⟩
+    unfold SState.trig at htr ⊢; rw [htrs]; exact htr
+  | stepAsk _ e q1 pv r q' he hmin ha hf hmem1 hq' hinv =>
+    by_cases hex : e = x
+    · subst hex
+      right
+      obtain ⟨_, ⟨hc, hpv, _, _⟩ | ⟨hc, _⟩⟩ := askedWith_some_active ha
+      · subst hpv
+        have hr : r = some (e.prio + I) := by rw [← hf, htr]; rfl
+        subst hr
+        refine ⟨?_, rfl, ?_, ?_⟩
+        · unfold Obs.dispTime?
+          rw [disp_stepAsk, if_pos hc]
+          simp
+        · rcases hq' with ⟨h1, _⟩ | ⟨p, hp, rfl⟩
+          · cases h1
+          · injection hp with hp
+            subst hp
+            exact (mem_hpush_iff _ _ _).mpr (Or.inl rfl)
+        · show ((({ s with q := q1 } : SState).setTrig e.tag _).trig e.tag) = _
+          rw [trig_setTrig_same, htr]; rfl
+      · exfalso
+        apply hno _ e rfl rfl rfl
+        show some (classify e now thr) = _
+        rw [hc]
+    · left
+      have hte : x.tag ≠ e.tag := fun hh => hex (hwf.tags e he x hx hh.symm)
+      refine ⟨?_, ?_, ?_, ?_⟩
+      · unfold Obs.dispTime?
+        rw [disp_stepAsk]
+        by_cases hv : classify e now thr = .valid
+        · rw [if_pos hv]
+          show (if e.tag = x.tag then some e.prio else none) = none
+          rw [if_neg (fun hh => hte hh.symm)]
+        · rw [if_neg hv]
+      · intro c hc
+        rw [List.mem_singleton] at hc
+        subst hc
+        exact fun hh => hte hh.symm
+      · have hx1 : x ∈ q1.toList := (hmem1 x).mpr ⟨hx, fun hh => hex hh.symm⟩
+        rcases hq' with ⟨_, rfl⟩ | ⟨p, _, rfl⟩
+        · exact hx1
+        · exact (mem_hpush_iff _ _ _).mpr (Or.inr hx1)
+      · show ((({ s with q := q1 } : SState).setTrig e.tag _).trig x.tag) = _
+        rw [trig_setTrig_other _ _ _ _ hte]
+        exact htr
+
+theorem range_shift (k : Nat) (f I : Int) :
+    f :: (List.range k).map (fun (i : Nat) => (f + I) + (i : Int) * I) =
+      (List.range (k + 1)).map (fun (i : Nat) => f + (i : Int) * I) := by
+  rw [List.range_succ_eq_map, List.map_cons, List.map_map]
+  congr 1
+  · simp
+  · apply List.map_congr_left
+    intro i _
+    simp only [Function.comp]
+    rw [Int.natCast_succ, Int.add_mul, Int.one_mul]
+    omega
+
+theorem no_drift_aux (thr I : Int) (t : Nat) (evs : List Ev) :
+    ∀ (s : SState) (x : Entry), WF s → x ∈ s.q.toList → x.suspended = false → x.tag = t →
+      s.trig t = .simple I → OnlySteps evs → NeverOutdated t (run thr s evs).2 →
+      ∃ k : Nat,
+        dispatchTimes t (run thr s evs).2 = (List.range k).map (fun (i : Nat) => x.prio + (i : Int) * I) ∧
+        (callLog (run thr s evs).2).filter (fun c => c.tag == t) =
+          (List.range k).map (fun (i : Nat) =>
+            (⟨t, x.prio + (i : Int) * I, some (x.prio + (i : Int) * I + I)⟩ : TrigCall)) ∧
+        ({ x with prio := x.prio + (k : Int) * I } : Entry) ∈ (run thr s evs).1.q.toList ∧
+        (run thr s evs).1.trig t = .simple I := by
+  induction evs with
+  | nil =>
+    intro s x _ hx _ _ htr _ _
+    refine ⟨0, rfl, rfl, ?_, htr⟩
+    simpa using hx
+  | cons ev evs ih =>
+    intro s x hwf hx hxs hxt htr hos hno
+    obtain ⟨now, rfl⟩ := hos _ List.mem_cons_self
+    have hk := apply_kind thr s hwf.wf0 (.step now)
+    have hwf' := kind_wf hwf (fun t ht => by cases ht) hk
+    rw [run_cons] at hno ⊢
+    have hno1 := hno _ List.mem_cons_self
+    have hno2 : NeverOutdated t (run thr (apply thr s (.step now)).1 evs).2 :=
+      fun o ho => hno o (List.mem_cons_of_mem _ ho)
+    have hos2 : OnlySteps evs := fun ev hev => hos ev (List.mem_cons_of_mem _ hev)
+    subst hxt
+    rcases drift_step hwf hk x hx hxs I htr hno1 with ⟨h1, h2, h3, h4⟩ | ⟨h1, h2, h3, h4⟩
+    · obtain ⟨k, i1, i2, i3, i4⟩ := ih _ x hwf' h3 hxs rfl h4 hos2 hno2
+      refine ⟨k, ?_, ?_, i3, i4⟩
+      · unfold dispatchTimes at i1 ⊢
+        rw [List.filterMap_cons, h1]; exact i1
+      · unfold callLog at i2 ⊢
+        rw [List.flatMap_cons, List.filter_append, i2]
+        have : List.filter (fun c => c.tag == x.tag) (apply thr s (.step now)).2.calls = [] := by
+          rw [List.filter_eq_nil_iff]
+          intro c hc
+          simpa using h2 c hc
+        rw [this]; rfl
+    · obtain ⟨k, i1, i2, i3, i4⟩ := ih _ { x with prio := x.prio + I } hwf' h3 hxs rfl h4 hos2 hno2
+      refine ⟨k + 1, ?_, ?_, ?_, i4⟩
+      · unfold dispatchTimes at i1 ⊢
+        rw [List.filterMap_cons, h1]
+        simp only
+        rw [i1]
+        exact range_shift k x.prio I
+      · unfold callLog at i2 ⊢
+        rw [List.flatMap_cons, List.filter_append, i2, h2]
+        simp only [List.filter_cons, beq_self_eq_true, if_true, List.filter_nil, List.cons_append,
+          List.nil_append]
+        rw [List.range_succ_eq_map, List.map_cons, List.map_map]
+        congr 1
+        · simp
+        · apply List.map_congr_left
+          intro i _
+          simp only [Function.comp]
+          rw [Int.natCast_succ, Int.add_mul, Int.one_mul]
+          generalize (i : Int) * I = m
+          have : x.prio + (m + I) = x.prio + I + m := by omega
+          rw [this]
+      · have : x.prio + I + (k : Int) * I = x.prio + ((k + 1 : Nat) : Int) * I := by
+          rw [Int.natCast_succ, Int.add_mul, Int.one_mul]; omega
+        rw [← this]; exact i3
+
+/-- what a successful `ScheduleJob` leaves behind -/
+theorem schedule_ok_facts (s : SState) (now : Int) (a : SchedArgs) (h : Inv s.q)
+    (hok : (schedule s now a).2.1 = none) :
+    ∃ t p, a.trig = some t ∧ ¬ a.illegal ∧
+      ((a.suspended = true ∧ p = maxInt64 ∧ (schedule s now a).1.trig a.tag = t ∧
+          (schedule s now a).2.2 = []) ∨
+       (a.suspended = false ∧ (t.fire now).1 = some p ∧
+          (schedule s now a).1.trig a.tag = (t.fire now).2 ∧
+          (schedule s now a).2.2 = [⟨a.tag, now, some p⟩])) ∧
+      a.entry p ∈ (schedule s now a).1.q.toList ∧
+      (∀ t', t' ≠ a.tag → (schedule s now a).1.trig t' = s.trig t') := by
+  rcases schedule_cases s now a with ⟨_, hs⟩ | ⟨_, _, hs⟩ |
+    ⟨hl, _, t, p, t', calls, ht, hpc, ⟨e, _, hs⟩ | ⟨q', hq, hs⟩⟩
+  · rw [hs] at hok; cases hok
+  · rw [hs] at hok; cases hok
+  · rw [hs] at hok; cases hok
+  · rw [hs]
+    have hmem : a.entry p ∈ q'.toList := by
+      have := C11_get_after_push s.q q' (a.entry p) h hq
+      exact (qget_ok q' (qpush_inv s.q q' _ h hq) _ _ _ this).1
+    refine ⟨t, p, ht, hl, ?_, hmem, fun t' ht' => by rw [trig_setTrig_other _ _ _ _ ht']; rfl⟩
+    rcases hpc with ⟨h1, h2, h3, h4⟩ | ⟨h1, h2, h3, h4⟩
+    · exact Or.inl ⟨h1, h2, by rw [trig_setTrig_same, h3], h4⟩
+    · exact Or.inr ⟨h1, h2, by rw [trig_setTrig_same, h3], h4⟩
+
+/-- where the keys of the new state come from -/
+theorem kind_keys {thr : Int} {s s' : SState} {ev : Ev} {o : Obs} (hk : Kind thr s ev s' o) :
+    ∀ x ∈ s'.q.toList, (∃ e ∈ s.q.toList, e.group = x.group ∧ e.name = x.name) ∨
+      (∃ now a, ev = .schedule now a ∧ a.group = x.group ∧ a.name = x.name) := by
+  intro x hx
+  cases hk with
+  | idle _ _ _ hmem => exact Or.inl ⟨x, (hmem x).mp hx, rfl, rfl⟩
+  | schedFail => exact Or.inl ⟨x, hx, rfl, rfl⟩
+  | sched now a t t' p calls q' old hl ht hpc hold hnew hmem hinv =>
+    rcases (hmem x).mp hx with rfl | ⟨h1, _⟩
+    · exact Or.inr ⟨now, a, rfl, rfl, rfl⟩
+    · exact Or.inl ⟨x, h1, rfl, rfl⟩
+  | del g n e q1 he hg hn hmem hinv => exact Or.inl ⟨x, ((hmem x).mp hx).1, rfl, rfl⟩
+  | pause g n e q1 he hg hn hs hmem hinv =>
+    rcases (mem_swap hmem x).mp hx with rfl | ⟨h1, _⟩
+    · exact Or.inl ⟨e, he, rfl, rfl⟩
+    · exact Or.inl ⟨x, h1, rfl, rfl⟩
+  | resumeFail now g n e he hg hn hs hf => exact Or.inl ⟨x, hx, rfl, rfl⟩
+  | resume now g n e p q1 he hg hn hs hf hmem hinv =>
+    rcases (mem_swap hmem x).mp hx with rfl | ⟨h1, _⟩
+    · exact Or.inl ⟨e, he, rfl, rfl⟩
+    · exact Or.inl ⟨x, h1, rfl, rfl⟩
+  | clear => simp at hx
+  | stepAsk now e q1 pv r q' he hmin ha hf hmem1 hq' hinv =>
+    rcases hq' with ⟨_, rfl⟩ | ⟨p, _, rfl⟩
+    · exact Or.inl ⟨x, ((hmem1 x).mp hx).1, rfl, rfl⟩
+    · rcases (mem_swap hmem1 x).mp hx with rfl | ⟨h1, _⟩
+      · exact Or.inl ⟨e, he, rfl, rfl⟩
+      · exact Or.inl ⟨x, h1, rfl, rfl⟩
+
+theorem run_nokey (thr : Int) (g n : String) (evs : List Ev) (s : SState) (hwf : WF0 s)
+    (hnk : ¬ hasKey s.q g n) (hns : ∀ ev ∈ evs, ev.schedulesKey g n = false) :
+    ¬ hasKey (run thr s evs).1.q g n := by
+  induction evs generalizing s with
+  | nil => exact hnk
+  | cons ev evs ih =>
+    have hk := apply_kind thr s hwf ev
+    apply ih _ (kind_wf0 hwf hk) _ (fun ev' hev' => hns ev' (List.mem_cons_of_mem _ hev'))
+    rintro ⟨x, hx, hg, hn⟩
+    rcases kind_keys hk x hx with ⟨e, he, heg, hen⟩ | ⟨now, a, rfl, hag, han⟩
+    · exact hnk ⟨e, he, by rw [heg, hg], by rw [hen, hn]⟩
+    · have := hns _ List.mem_cons_self
+      simp [Ev.schedulesKey, hag, han, hg, hn] at this
+
+/-! ## a trigger that has nothing more to give -/
+
+/-- one event, seen from a tag whose trigger object is exhausted (`fire` answers `none` and stays) -/
+theorem spent_step {thr : Int} {s s' : SState} {ev : Ev} {o : Obs} (hwf : WF s)
+    (hk : Kind thr s ev s' o) (t : Nat) (T : Trig) (hT : ∀ pv, T.fire pv = (none, T))
+    (hns : ev.schedTag? ≠ some t) (htr : s.trig t = T) :
+    s'.trig t = T ∧ (∀ c ∈ o.calls, c.tag = t → c.result = none) ∧
+    (∀ x ∈ s'.q.toList, x.tag = t → x.suspended = false →
+      x ∈ s.q.toList ∧ ∀ pos d, o.disp? pos = some d → d.tag ≠ t) := by
+  have hcalls : ∀ c ∈ o.calls, c.tag = t → c.result = none ∧ s'.trig t = T := by
+    intro c hc hct
+    rcases kind_calls hk c hc with hst | ⟨e, he, het, hres, htr', _⟩
+    · exact absurd (by rw [hst, hct]) hns
+    · rw [het, hct, htr, hT] at hres htr'
+      exact ⟨hres, htr'⟩
+  refine ⟨?_, fun c hc hct => (hcalls c hc hct).1, ?_⟩
+  · by_cases hex : ∃ c ∈ o.calls, c.tag = t
+    · obtain ⟨c, hc, hct⟩ := hex
+      exact (hcalls c hc hct).2
+    · rw [kind_trig_frame hk t (fun c hc hct => hex ⟨c, hc, hct⟩) hns]; exact htr
+  · intro x hx hxt hxs
+    rcases kind_active hwf hk x hx hxs with ⟨pv, hc⟩ | ⟨h1, h2⟩
+    · have := (hcalls _ hc hxt).1
+      cases this
+    · exact ⟨h1, fun pos d hd => by rw [← hxt]; exact h2 pos d hd⟩
+
+theorem dispTime_some_iff (t : Nat) (o : Obs) (f : Int) :
+    o.dispTime? t = some f ↔ ∃ d, o.disp? 0 = some d ∧ d.tag = t ∧ d.time = f := by
+  unfold Obs.dispTime?
+  cases o.disp? 0 with
+  | none => simp
+  | some d =>
+    simp only [Option.some.injEq, exists_eq_left']
+    by_cases hd : d.tag = t
+    · simp [hd]
+    · simp [hd]
+
+/-- all entries with tag `t` are suspended, its trigger is spent: it is never dispatched again -/
+theorem run_spent_done (thr : Int) (t : Nat) (T : Trig) (hT : ∀ pv, T.fire pv = (none, T))
+    (evs : List Ev) (s : SState) (hwf : WF s) (hft : FreshTags evs) (hff : FreshFor s evs)
+    (hns : t ∉ schedTags evs) (htr : s.trig t = T)
+    (hdone : ∀ x ∈ s.q.toList, x.tag = t → x.suspended = true) :
+    dispatchTimes t (run thr s evs).2 = [] := by
+  induction evs generalizing s with
+  | nil => rfl
+  | cons ev evs ih =>
+    have hk := apply_kind thr s hwf.wf0 ev
+    obtain ⟨h1, h2, h3⟩ := fresh_cons hft hff hk
+    rw [schedTags_cons] at hns
+    have hns1 : ev.schedTag? ≠ some t := fun hh => hns (List.mem_append_left _ (by rw [hh]; simp))
+    have hns2 : t ∉ schedTags evs := fun hh => hns (List.mem_append_right _ hh)
+    obtain ⟨s1, _, s3⟩ := spent_step hwf hk t T hT hns1 htr
+    have hdone' : ∀ x ∈ (apply thr s ev).1.q.toList, x.tag = t → x.suspended = true := by
+      intro x hx hxt
+      cases hxs : x.suspended with
+      | true => rfl
+      | false =>
+        have := hdone x (s3 x hx hxt hxs).1 hxt
+        rw [hxs] at this; cases this
+    have hnd : (apply thr s ev).2.dispTime? t = none := by
+      cases hdt : (apply thr s ev).2.dispTime? t with
+      | none => rfl
+      | some f =>
+        obtain ⟨d, hd, hdt', _⟩ := (dispTime_some_iff _ _ _).mp hdt
+        obtain ⟨_, e, _, he, hes, hde, _⟩ := kind_disp hk 0 d hd
+        rw [hde] at hdt'
+        have := hdone e he hdt'
+        rw [hes] at this; cases this
+    rw [run_cons]
+    unfold dispatchTimes at ih ⊢
+    rw [List.filterMap_cons, hnd]
+    exact ih _ (kind_wf hwf h1 hk) h2 h3 hns2 s1 hdone'
+
+/-- the trigger of tag `t` is spent and its only possible active entry is `x0`: at most one dispatch,
+of `x0.prio`, and every later call on it answers `none` -/
+theorem run_spent_once (thr : Int) (t : Nat) (x0 : Entry) (T : Trig) (hT : ∀ pv, T.fire pv = (none, T))
+    (evs : List Ev) (s : SState) (hwf : WF s) (hft : FreshTags evs) (hff : FreshFor s evs)
+    (hns : t ∉ schedTags evs) (htr : s.trig t = T)
+    (hR : ∀ x ∈ s.q.toList, x.tag = t → x.suspended = false → x = x0) :
+    (dispatchTimes t (run thr s evs).2 = [] ∨ dispatchTimes t (run thr s evs).2 = [x0.prio]) ∧
+    (∀ c ∈ callLog (run thr s evs).2, c.tag = t → c.result = none) ∧
+    (run thr s evs).1.trig t = T ∧
+    (∀ x ∈ (run thr s evs).1.q.toList, x.tag = t → x.suspended = false → x = x0) := by
+  induction evs generalizing s with
+  | nil => exact ⟨Or.inl rfl, (fun c hc => by cases hc), htr, hR⟩
+  | cons ev evs ih =>
+    have hk := apply_kind thr s hwf.wf0 ev
+    obtain ⟨h1, h2, h3⟩ := fresh_cons hft hff hk
+    rw [schedTags_cons] at hns
+    have hns1 : ev.schedTag? ≠ some t := fun hh => hns (List.mem_append_left _ (by rw [hh]; simp))
+    have hns2 : t ∉ schedTags evs := fun hh => hns (List.mem_append_right _ hh)
+    obtain ⟨s1, s2, s3⟩ := spent_step hwf hk t T hT hns1 htr
+    have hwf' := kind_wf hwf h1 hk
+    have hR' : ∀ x ∈ (apply thr s ev).1.q.toList, x.tag = t → x.suspended = false → x = x0 :=
+      fun x hx hxt hxs => hR x (s3 x hx hxt hxs).1 hxt hxs
+    rw [run_cons]
+    have hcl : ∀ rest : List Obs, (∀ c ∈ callLog rest, c.tag = t → c.result = none) →
+        ∀ c ∈ callLog ((apply thr s ev).2 :: rest), c.tag = t → c.result = none := by
+      intro rest hrest c hc hct
+      unfold callLog at hc
+      rw [List.flatMap_cons, List.mem_append] at hc
+      rcases hc with hc | hc
+      · exact s2 c hc hct
+      · exact hrest c hc hct
+    cases hdt : (apply thr s ev).2.dispTime? t with
+    | none =>
+      obtain ⟨i1, i2, i3, i4⟩ := ih _ hwf' h2 h3 hns2 s1 hR'
+      refine ⟨?_, hcl _ i2, i3, i4⟩
+      unfold dispatchTimes at i1 ⊢
+      rw [List.filterMap_cons, hdt]
+      exact i1
+    | some f =>
+      obtain ⟨d, hd, hdt', hdf⟩ := (dispTime_some_iff _ _ _).mp hdt
+      obtain ⟨_, e, _, he, hes, hde, _⟩ := kind_disp hk 0 d hd
+      have hf : f = x0.prio := by
+        rw [← hdf, hde]
+        rw [hde] at hdt'
+        rw [← hR e he hdt' hes]
+      have hdone' : ∀ x ∈ (apply thr s ev).1.q.toList, x.tag = t → x.suspended = true := by
+        intro x hx hxt
+        cases hxs : x.suspended with
+        | true => rfl
+        | false => exact absurd hdt' ((s3 x hx hxt hxs).2 0 d hd)
+      obtain ⟨_, i2, i3, i4⟩ := ih _ hwf' h2 h3 hns2 s1 hR'
+      have := run_spent_done thr t T hT evs _ hwf' h2 h3 hns2 s1 hdone'
+      refine ⟨Or.inr ?_, hcl _ i2, i3, i4⟩
+      unfold dispatchTimes at this ⊢
+      rw [List.filterMap_cons, hdt, this, hf]
+
+/-- where tag and key of an entry of the new state come from (they travel together) -/
+theorem kind_tag_key {thr : Int} {s s' : SState} {ev : Ev} {o : Obs} (hk : Kind thr s ev s' o) :
+    ∀ x ∈ s'.q.toList,
+      (∃ e ∈ s.q.toList, e.tag = x.tag ∧ e.group = x.group ∧ e.name = x.name) ∨
+      (∃ now a, ev = .schedule now a ∧ a.tag = x.tag ∧ a.group = x.group ∧ a.name = x.name) := by
+  intro x hx
+  cases hk with
+  | idle _ _ _ hmem => exact Or.inl ⟨x, (hmem x).mp hx, rfl, rfl, rfl⟩
+  | schedFail => exact Or.inl ⟨x, hx, rfl, rfl, rfl⟩
+  | sched now a t t' p calls q' old hl ht hpc hold hnew hmem hinv =>
+    rcases (hmem x).mp hx with rfl | ⟨h1, _⟩
+    · exact Or.inr ⟨now, a, rfl, rfl, rfl, rfl⟩
+    · exact Or.inl ⟨x, h1, rfl, rfl, rfl⟩
+  | del g n e q1 he hg hn hmem hinv => exact Or.inl ⟨x, ((hmem x).mp hx).1, rfl, rfl, rfl⟩
+  | pause g n e q1 he hg hn hs hmem hinv =>
+    rcases (mem_swap hmem x).mp hx with rfl | ⟨h1, _⟩
+    · exact Or.inl ⟨e, he, rfl, rfl, rfl⟩
+    · exact Or.inl ⟨x, h1, rfl, rfl, rfl⟩
+  | resumeFail now g n e he hg hn hs hf => exact Or.inl ⟨x, hx, rfl, rfl, rfl⟩
+  | resume now g n e p q1 he hg hn hs hf hmem hinv =>
+    rcases (mem_swap hmem x).mp hx with rfl | ⟨h1, _⟩
+    · exact Or.inl ⟨e, he, rfl, rfl, rfl⟩
+    · exact Or.inl ⟨x, h1, rfl, rfl, rfl⟩
+  | clear => simp at hx
+  | stepAsk now e q1 pv r q' he hmin ha hf hmem1 hq' hinv =>
+    rcases hq' with ⟨_, rfl⟩ | ⟨p, _, rfl⟩
+    · exact Or.inl ⟨x, ((hmem1 x).mp hx).1, rfl, rfl, rfl⟩
+    · rcases (mem_swap hmem1 x).mp hx with rfl | ⟨h1, _⟩
+      · exact Or.inl ⟨e, he, rfl, rfl, rfl⟩
+      · exact Or.inl ⟨x, h1, rfl, rfl, rfl⟩
+
+/-- a tag keeps its key as long as the trigger object is not scheduled again -/
+theorem run_tag_key (thr : Int) (t : Nat) (g n : String) (evs : List Ev) (s : SState) (hwf : WF0 s)
+    (hns : t ∉ schedTags evs) (hkey : ∀ x ∈ s.q.toList, x.tag = t → x.group = g ∧ x.name = n) :
+    ∀ x ∈ (run thr s evs).1.q.toList, x.tag = t → x.group = g ∧ x.name = n := by
+  induction evs generalizing s with
+  | nil => exact hkey
+  | cons ev evs ih =>
+    have hk := apply_kind thr s hwf ev
+    rw [schedTags_cons] at hns
+    apply ih _ (kind_wf0 hwf hk) (fun hh => hns (List.mem_append_right _ hh))
+    intro x hx hxt
+    rcases kind_tag_key hk x hx with ⟨e, he, het, heg, hen⟩ | ⟨now, a, rfl, hat, _⟩
+    · rw [← heg, ← hen]; exact hkey e he (by rw [het, hxt])
+    · exact absurd (List.mem_append_left _ (by simp [Ev.schedTag?, hat, hxt])) hns
+
+theorem dispatchTimes_append (t : Nat) (o1 o2 : List Obs) :
+    dispatchTimes t (o1 ++ o2) = dispatchTimes t o1 ++ dispatchTimes t o2 := by
+  unfold dispatchTimes; exact List.filterMap_append
+
+theorem dispatchTimes_cons (t : Nat) (o : Obs) (os : List Obs) :
+    dispatchTimes t (o :: os) = (o.dispTime? t).toList ++ dispatchTimes t os := by
+  unfold dispatchTimes
+  rw [List.filterMap_cons]
+  cases o.dispTime? t <;> rfl
 
 end Sched
